@@ -51,6 +51,10 @@ var arithFns = []arithFn{
 	{"location.go", "", "rangeOverlap", "rangeOverlap", false},
 	{"seqio/origin.go", "", "toOriginLength", "toOriginLength", false},
 	{"seqio/origin.go", "", "fromOriginLength", "fromOriginLength", false},
+	{"location.go", "Between", "span", "betweenSpan", false},
+	{"location.go", "Point", "span", "pointSpan", false},
+	{"location.go", "Ranged", "span", "rangedSpan", false},
+	{"location.go", "Ambiguous", "span", "ambiguousSpan", false},
 	{"location.go", "Between", "Expand", "betweenExpand", false},
 	{"location.go", "Between", "Shift", "betweenShift", false},
 	{"location.go", "Between", "Reverse", "betweenReverse", false},
